@@ -783,7 +783,36 @@ def check_approximated_gradients(ctx: Ctx) -> None:
     c16.check_twins(_Prefixed(ctx, "1.11-approximated/"))
 
 
+def check_preprocessed_convention(ctx: Ctx) -> None:
+    """1.12: the functions are wrapped once for a convention of their input (normalised or physical); a driver using the
+    other convention must not be handed these wrappers: ``preprocess_functions`` may return without wrapping only when
+    the functions are already wrapped FOR THE CONVENTION ASKED FOR (F51: it returned whenever they were wrapped; a DOE
+    after a normalised optimisation evaluated 20 and 40 for the samples 2 and 4 of a variable bounded by 0 and 10)."""
+    f = ctx.index.method(EP, "EvaluationProblem", "preprocess_functions")
+    con = cname(EP, "EvaluationProblem", "preprocess_functions")
+    cfg = cfg_of(f)
+    conv = "is_function_input_normalized"
+    wraps = [c for c in walk_body(f) if isinstance(c, ast.Call) and last_attr(c) == "_preprocess_function"]
+    ctx.need(wraps, "preprocess_functions: the wrapping of the functions was not found")
+    first = min(cfg.node_of(rules.enclosing_stmt(f, c)) for c in wraps)
+    early = [r for r in stmts_of(f) if isinstance(r, ast.Return) and not cfg.reachable(first, cfg.node_of(r))]
+    n = 0
+    from gv.props.shared import branch_conditions as _bc
+
+    for r in early:
+        n += 1
+        tests = [cfg.ast[t].test for t, v in _bc(cfg, cfg.node_of(r)) if cfg.kind[t] == "test"]
+        ok = any(conv in names_in(t_) for t_ in tests)
+        ctx.ob("1.12-convention", con, ok, "preprocess_functions returns without wrapping under a condition that does not involve the convention asked for (is_function_input_normalized): functions wrapped for normalised inputs are then handed physical points by the next driver (or the converse), and are evaluated and recorded at points normalised or unnormalised twice", node=r, stmt="early return only for the same input convention")
+    # the convention the wrappers were made for is recorded where the flag is raised
+    raised = [s_ for s_ in stmts_of(f) if isinstance(s_, ast.Assign) and dotted(s_.targets[0]) == "self._functions_are_preprocessed" and const_value(s_.value, None) is True]
+    kept = [s_ for s_ in stmts_of(f) if isinstance(s_, ast.Assign) and isinstance(s_.targets[0], ast.Attribute) and dotted(s_.targets[0].value) == "self" and dotted(s_.value) == conv]
+    if early:
+        ctx.ob("1.12-convention", con, bool(raised) and bool(kept), "the convention the functions are wrapped for must be recorded with the 'pre-processed' flag, to be compared with the one the next driver asks for", node=(raised or [f])[0], stmt="convention recorded")
+
+
 def run(ctx: Ctx) -> None:
+    check_preprocessed_convention(ctx)
     check_equal_bounds(ctx)
     check_approximated_gradients(ctx)
     roles = compute_roles(ctx)
